@@ -25,6 +25,7 @@ Apply(h, op) ==
       [] op.op = "newC" -> Append(h, NewC(<<>>, <<>>))
       [] op.op = "newL" -> Append(h, NewL(<<>>))
       [] op.op = "newd" -> Append(h, [cls |-> "d", k |-> <<>>, v |-> <<>>])
+      [] op.op = "newl" -> Append(h, [cls |-> "l", k |-> <<>>, v |-> <<>>])
       [] OTHER -> h          \* observations only (eq, search)
 
 \* first clause violated by the observation after a step ("" = none)
